@@ -29,7 +29,20 @@ def _callee_effect(p, g):
         pa = resolve_addr(g, s.ops[1])
         if pa.root != ("a", 0) or not (pa.last_field() or "").endswith("vlo_free"):
             continue
-        v = expr.lin(g, s.ops[0], 0, 1)
+        vi0 = g.inst(strip_casts(g, s.ops[0]))
+        if vi0 is not None and vi0.op in ("phi", "select"):
+            # `free = cond ? start : free - n': each alternative is an effect of its own
+            alts_ = [x for (x, _) in vi0.d["incoming"]] if vi0.op == "phi" else [vi0.ops[1], vi0.ops[2]]
+        else:
+            alts_ = [s.ops[0]]
+        for alt_ in alts_:
+            _one_effect(g, alt_, eff)
+    return eff
+
+
+def _one_effect(g, op, eff):
+    if True:
+        v = expr.lin(g, op, 0, 1)
         free_atoms = [a for a in v.t if a.startswith("L[a0") and a.endswith("vlo_free]")]
         start_atoms = [a for a in v.t if a.startswith("L[a0") and a.endswith("vlo_start]")]
         if len(free_atoms) == 1 and v.t[free_atoms[0]] == 1 and set(v.t) - set(free_atoms) == set(["a1"]) and abs(v.t["a1"]) == 1 and v.c == 0:
@@ -40,7 +53,6 @@ def _callee_effect(p, g):
             pass   # moved to a new block: new start + (free - start), the length is kept
         else:
             raise AnalysisBroken("R17: %s changes the length of its object in a form the rule does not know (%r)" % (g.name, v))
-    return eff
 
 
 def rule_R17(ctx, rep, config="c-lib", tag=""):
